@@ -51,7 +51,7 @@ def run(rep, kf, tier, seed):
     clo.macro_presence_obligations(rep, "C06")
     import contracts.containment as ct
     ct.discharge(rep, kf, "C06", tier, seed)
-    run_bounded(rep, kf, "C06", ["body_refs", "removal_closure", "enum_values", "schema_order", "schema_accounting", "rejection_pool"], tier)
+    run_bounded(rep, kf, "C06", ["body_refs", "removal_closure", "enum_values", "schema_order", "schema_accounting", "rejection_pool", "odd_documents"], tier)
     rep.trusted.extend(["CPython semantics of the supported subset as encoded in pyvc.symexec",
                         "typer.secho/echo/style and pprint.pformat have no effect on the program state"]
                        + ["assumed library contract: " + t for t in libmodels.TRUSTED])
